@@ -17,8 +17,10 @@ import (
 	"strconv"
 	"strings"
 	"testing"
+	"time"
 
 	"github.com/bluenviron/gortsplib/v5/pkg/format"
+	"github.com/bluenviron/mediacommon/v2/pkg/codecs/mpeg4audio"
 	"github.com/pion/rtp"
 
 	"github.com/bluenviron/mediamtx/internal/conf"
@@ -261,6 +263,10 @@ type vC23Scenario struct {
 	fixed  []unit.Payload // directed scenario: these payloads, in this order (non-RTP publisher)
 	// directed scenario, RTP publisher: these payloads, one hand-made RTP packet each
 	fixedRTP []unit.Payload
+	// 0 = ordinary stream (one sub stream), 1 = always-available stream (segs = its sub streams, the first one being the
+	// offline sub stream), 2 = forced remux (H.264 packetization-mode 0, one sub stream)
+	mode int
+	segs []vC23Seg
 }
 
 // oracle "newRTPEncoder has an encoder for this format and this maximum", observed on the real function
@@ -271,7 +277,11 @@ func vC23Avail(f *vC23Fmt, max int) (avail bool) {
 		}
 	}()
 	ssrc, seq := uint32(1), uint16(1)
-	_, err := newRTPEncoder(f.mk(), max, &ssrc, &seq)
+	forma := f.mk()
+	if h, ok := forma.(*format.H264); ok && h.PacketizationMode == 0 {
+		h.PacketizationMode = 1 // streamFormat.initialize: the encoder is created for outFormat
+	}
+	_, err := newRTPEncoder(forma, max, &ssrc, &seq)
 	return err == nil
 }
 
@@ -280,131 +290,244 @@ func vC23Scen(f *vC23Fmt, max int, avail bool, initCoq string, steps []string) s
 		cqBool(avail), cqBool(f.bytejoin), initCoq, cqList(steps))
 }
 
+// one sub stream of a scenario: the kind of publisher and the number of units it writes
+type vC23Seg struct {
+	rtp    bool
+	nUnits int
+}
+
+// the per-format state of the Stream as it is now: encoder present?, its SSRC and CURRENT sequence number, rtpTimeOffset
+func vC23EncCur(sf *streamFormat) (has bool, ssrc uint32, seq uint16, off uint32) {
+	if sf.rtpEncoder == nil {
+		return
+	}
+	has, off = true, sf.rtpTimeOffset
+	v := reflect.ValueOf(sf.rtpEncoder)
+	if v.Kind() != reflect.Pointer || v.Elem().Kind() != reflect.Struct {
+		return
+	}
+	if f := v.Elem().FieldByName("SSRC"); f.IsValid() && !f.IsNil() {
+		ssrc = uint32(f.Elem().Uint())
+	}
+	if f := v.Elem().FieldByName("sequenceNumber"); f.IsValid() {
+		seq = uint16(f.Uint())
+	}
+	return
+}
+
+func vC23StateCoq(sf *streamFormat) (coq, desc string) {
+	has, ssrc, seq, off := vC23EncCur(sf)
+	if !has {
+		return "None", "no encoder"
+	}
+	return "(Some (" + cqZ(int64(ssrc)) + ", " + cqZ(int64(seq)) + ", " + cqZ(int64(off)) + "))",
+		fmt.Sprintf("ssrc=%d seq=%d off=%d", ssrc, seq, off)
+}
+
+// a new sub stream format on the fixture's streamFormat, built and initialised the way subStreamMedia.initialize does
+func vC23NewSub(fx *vFx, inFormat format.Format, useRTP bool) (err error) {
+	ssf := &subStreamFormat{inFormat: inFormat, streamFormat: fx.sf, useRTPPackets: useRTP}
+	err = ssf.initialize()
+	if err == nil {
+		fx.ssf = ssf
+	}
+	return err
+}
+
+// runs f with a real Reader attached to the streamFormat and returns the units the readers were handed meanwhile
+// (initialize2 writes units of its own: the parameter sets of the publisher's H.264 / H.265 format)
+func vC23Tap(fx *vFx, f func()) []*unit.Unit {
+	var got []*unit.Unit
+	r := &Reader{Parent: fx}
+	r.queueSize = 64
+	r.start()
+	fx.sf.onDatas[r] = func(u *unit.Unit) error { got = append(got, u); return nil }
+	f()
+	done := make(chan struct{})
+	r.push(func() error { close(done); return nil })
+	<-done
+	delete(fx.sf.onDatas, r)
+	r.stop()
+	return got
+}
+
+func vC23DecOK(forma format.Format) (ok bool) {
+	defer func() {
+		if r := recover(); r != nil {
+			ok = false
+		}
+	}()
+	_, err := newRTPDecoder(forma)
+	return err == nil
+}
+
 // runs one scenario; returns the case
 func vC23Run(g *vC23Gen, sc vC23Scenario) (coq string, desc map[string]any, class string, nontrivial bool) {
-	forma := sc.f.mk()
-	avail := vC23Avail(sc.f, sc.max)
-	fx, err := vNewFx(forma, sc.rtp, sc.max, false)
-	if err != nil {
-		panic(fmt.Sprintf("%s: %v", sc.f.name, err))
+	segs := sc.segs
+	if segs == nil {
+		segs = []vC23Seg{{rtp: sc.rtp, nUnits: sc.nUnits}}
 	}
-	desc = map[string]any{"format": sc.f.name, "max": sc.max, "rtpPublisher": sc.rtp, "encoderAvailable": avail}
+	aa := sc.mode == 1
+	// the publisher's format of a sub stream: on an always-available stream it is another object than the stream's, and
+	// an H.264 / H.265 publisher may announce parameter sets (initialize2 then writes them as a unit of its own)
+	inFormat := func(first bool) format.Format {
+		forma := sc.f.mk()
+		if aa && (!first || g.r.Chance(1, 2)) && g.r.Chance(2, 3) {
+			switch f := forma.(type) {
+			case *format.H264:
+				f.SPS, f.PPS = offlineH264SPS, offlineH264PPS
+			case *format.H265:
+				f.VPS, f.SPS, f.PPS = offlineH265VPS, offlineH265SPS, offlineH265PPS
+			}
+		}
+		if f, ok := forma.(*format.MPEG4Audio); ok && aa && f.Config == nil {
+			// writeUnitInner of an always-available stream asks the format for its clock rate
+			f.Config = &mpeg4audio.AudioSpecificConfig{Type: mpeg4audio.ObjectTypeAACLC, SampleRate: 48000, ChannelConfig: 2, ChannelCount: 2}
+		}
+		return forma
+	}
+	forma := inFormat(true)
+	avail := vC23Avail(sc.f, sc.max)
+	desc = map[string]any{"format": sc.f.name, "max": sc.max, "rtpPublisher": sc.rtp, "encoderAvailable": avail,
+		"alwaysAvailable": aa, "forceRemux": sc.mode == 2}
 	if sc.f.bits != 0 {
 		desc["bitDepth"], desc["channels"] = sc.f.bits, sc.f.chans
 	}
-	initCoq := "None"
-	if fx.sf.rtpEncoder != nil {
-		ssrc, seq := vC23EncInit(fx.sf.rtpEncoder)
-		initCoq = "(Some (" + cqZ(int64(ssrc)) + ", " + cqZ(int64(seq)) + ", " + cqZ(int64(fx.sf.rtpTimeOffset)) + "))"
-		desc["init"] = fmt.Sprintf("ssrc=%d seq=%d off=%d", ssrc, seq, fx.sf.rtpTimeOffset)
+	mode := "payload"
+	if sc.rtp {
+		mode = "rtp-passthrough"
+	}
+	switch sc.mode {
+	case 1:
+		mode = fmt.Sprintf("always-available-%dsubs", len(segs))
+	case 2:
+		mode = "forced-remux-" + mode
+	}
+	mkCase := func(steps []string) string {
+		return cqApp("CLife", cqBool(aa), cqBool(sc.mode == 2), strconv.Itoa(sc.f.bits), strconv.Itoa(sc.f.chans),
+			strconv.Itoa(sc.f.id), strconv.Itoa(sc.max), cqBool(avail), cqBool(sc.f.bytejoin), "None", cqList(steps))
 	}
 
-	// the units
+	var steps []string
+	var dsteps []map[string]any
+	// Stream.updateLastTime / the arguments SubStream.Initialize hands to initialize2
+	firstTime, lastPTS, lastSys := false, time.Duration(0), time.Now()
+	subStep := func(useRTP, decOK, firstTime bool, res, dres string, fx *vFx) {
+		ptsoff := int64(0)
+		if fx != nil {
+			ptsoff = fx.sf.ptsOffset
+		}
+		steps = append(steps, cqApp("NewSub", cqBool(useRTP), cqBool(decOK), cqBool(firstTime), cqZ(ptsoff), res))
+		dsteps = append(dsteps, map[string]any{"newSubStream": map[string]any{"rtpPublisher": useRTP, "firstTimeReceived": firstTime,
+			"ptsOffset": ptsoff, "stateAfter": dres}})
+	}
+
+	fx, err := vNewFx(forma, segs[0].rtp, sc.max, aa)
+	if err != nil {
+		// subStreamFormat.initialize refused the very first sub stream (no encoder for the format and maximum)
+		subStep(segs[0].rtp, vC23DecOK(forma), false, "NErr", "error: "+err.Error(), nil)
+		desc["steps"] = dsteps
+		return mkCase(steps), desc, sc.f.name + "/" + mode + "/init-error", true
+	}
+	fx.sf.updateLastTime = func(pts time.Duration) {
+		firstTime = true
+		if pts > lastPTS {
+			lastPTS = pts
+		}
+		lastSys = time.Now()
+	}
+
+	var check rtpDecoder // decoder of a reader that stays connected over all sub streams, fed the generated packets
+	check, _ = newRTPDecoder(sc.f.mk())
+
 	type inUnit struct {
 		pts     int64
 		payload unit.Payload
 		pkts    []*rtp.Packet
 		class   string
 	}
-	var ins []inUnit
-	classes := map[string]bool{}
-	if sc.fixed != nil {
-		for _, p := range sc.fixed {
-			ins = append(ins, inUnit{pts: g.pts(), payload: p, class: "directed"})
-		}
-	} else if sc.fixedRTP != nil {
-		ssrc, seq := uint32(g.r.U64()), uint16(g.r.U64())
-		for _, p := range sc.fixedRTP {
-			pts := g.pts()
-			for _, b := range vC22PayloadList(p) {
-				pkt := &rtp.Packet{Header: rtp.Header{Version: 2, PayloadType: 96, SequenceNumber: seq, SSRC: ssrc, Timestamp: uint32(g.r.U64())}, Payload: b}
-				seq++
-				ins = append(ins, inUnit{pts: pts, pkts: []*rtp.Packet{pkt}, class: "directed"})
+	// the units of one sub stream
+	genIns := func(seg vC23Seg, only, lastSeg bool) []inUnit {
+		var ins []inUnit
+		if only && sc.fixed != nil {
+			for _, p := range sc.fixed {
+				ins = append(ins, inUnit{pts: g.pts(), payload: p, class: "directed"})
 			}
-		}
-	} else if !sc.rtp {
-		for i := 0; i < sc.nUnits; i++ {
-			p, cl := sc.f.gen(g, sc.max, i == sc.nUnits-1)
-			ins = append(ins, inUnit{pts: g.pts(), payload: p, class: cl})
-		}
-	} else {
-		desc["srcMax"] = sc.srcMax
-		ssrc, seq := uint32(g.r.U64()), uint16(g.r.U64())
-		if g.r.Chance(1, 4) {
-			seq = 65535 - uint16(g.r.Intn(3))
-		}
-		srcOff := uint32(g.r.U64())
-		src, err2 := newRTPEncoder(sc.f.mk(), sc.srcMax, &ssrc, &seq)
-		if err2 != nil || sc.f.id == 16 {
-			// no (real) encoder for this format: hand-made packets
-			src = nil
-		}
-		for i := 0; i < sc.nUnits; i++ {
-			// the first units fit, the later ones use the boundary sizes
-			m := sc.max
-			if i < sc.nUnits/2 {
-				m = sc.max / 3
-				if m < 8 {
-					m = 8
-				}
-			}
-			p, cl := sc.f.gen(g, m, i == sc.nUnits-1)
-			pts := g.pts()
-			var pkts []*rtp.Packet
-			if src != nil {
-				pkts, err = src.encode(p)
-				if err != nil {
-					// outside the encoder's precondition: the publisher cannot send this unit
-					continue
-				}
-			} else {
+		} else if only && sc.fixedRTP != nil {
+			ssrc, seq := uint32(g.r.U64()), uint16(g.r.U64())
+			for _, p := range sc.fixedRTP {
+				pts := g.pts()
 				for _, b := range vC22PayloadList(p) {
-					pkts = append(pkts, &rtp.Packet{Header: rtp.Header{Version: 2, PayloadType: 96, SequenceNumber: seq, SSRC: ssrc}, Payload: b})
+					pkt := &rtp.Packet{Header: rtp.Header{Version: 2, PayloadType: 96, SequenceNumber: seq, SSRC: ssrc, Timestamp: uint32(g.r.U64())}, Payload: b}
 					seq++
+					ins = append(ins, inUnit{pts: pts, pkts: []*rtp.Packet{pkt}, class: "directed"})
 				}
 			}
-			for _, pkt := range pkts {
-				pkt.Timestamp += srcOff + uint32(pts)
-				ins = append(ins, inUnit{pts: pts, pkts: []*rtp.Packet{pkt}, class: cl})
+		} else if !seg.rtp {
+			for i := 0; i < seg.nUnits; i++ {
+				p, cl := sc.f.gen(g, sc.max, lastSeg && i == seg.nUnits-1)
+				ins = append(ins, inUnit{pts: g.pts(), payload: p, class: cl})
+			}
+		} else {
+			desc["srcMax"] = sc.srcMax
+			ssrc, seq := uint32(g.r.U64()), uint16(g.r.U64())
+			if g.r.Chance(1, 4) {
+				seq = 65535 - uint16(g.r.Intn(3))
+			}
+			srcOff := uint32(g.r.U64())
+			src, err2 := newRTPEncoder(sc.f.mk(), sc.srcMax, &ssrc, &seq)
+			if err2 != nil || sc.f.id == 16 {
+				// no (real) encoder for this format: hand-made packets
+				src = nil
+			}
+			for i := 0; i < seg.nUnits; i++ {
+				// the first units fit, the later ones use the boundary sizes
+				m := sc.max
+				if i < seg.nUnits/2 {
+					m = sc.max / 3
+					if m < 8 {
+						m = 8
+					}
+				}
+				p, cl := sc.f.gen(g, m, lastSeg && i == seg.nUnits-1)
+				pts := g.pts()
+				var pkts []*rtp.Packet
+				if src != nil {
+					var e error
+					pkts, e = src.encode(p)
+					if e != nil {
+						// outside the encoder's precondition: the publisher cannot send this unit
+						continue
+					}
+				} else {
+					for _, b := range vC22PayloadList(p) {
+						pkts = append(pkts, &rtp.Packet{Header: rtp.Header{Version: 2, PayloadType: 96, SequenceNumber: seq, SSRC: ssrc}, Payload: b})
+						seq++
+					}
+					if sc.mode == 2 && len(pkts) != 0 {
+						pkts[len(pkts)-1].Marker = true // packetization-mode 0: one NAL unit per packet, marker on the last one
+					}
+				}
+				for _, pkt := range pkts {
+					pkt.Timestamp += srcOff + uint32(pts)
+					ins = append(ins, inUnit{pts: pts, pkts: []*rtp.Packet{pkt}, class: cl})
+				}
 			}
 		}
+		return ins
 	}
 
-	shadow, _ := newRTPDecoder(forma) // the same decoder ssf.initialize created, fed the same packets
-	var check rtpDecoder              // decoder of a reader, fed the generated packets
-	check, _ = newRTPDecoder(sc.f.mk())
-
-	var steps []string
-	var dsteps []map[string]any
+	classes := map[string]bool{}
 	reenc := 0
 	trig := false
 	merged := false
 	knownClass := ""
-	for _, in := range ins {
-		var inPkts []*rtp.Packet
-		for _, p := range in.pkts {
-			inPkts = append(inPkts, vC23ClonePkt(p))
+	// records one unit that went through writeUnitInner: ipts = the PTS handed to writeUnit, u = the unit afterwards
+	record := func(ipts int64, uclass string, sentPkts []*rtp.Packet, decerr, hadEnc bool, u *unit.Unit, werr error, pan string) {
+		ds := map[string]any{"pts": ipts, "class": uclass}
+		if u.PTS != ipts {
+			ds["deliveredPTS"] = u.PTS
 		}
-		decerr := false
-		if len(inPkts) != 0 && shadow != nil {
-			func() {
-				defer func() {
-					if r := recover(); r != nil {
-						decerr = true
-					}
-				}()
-				_, e := shadow.decode(vC23ClonePkt(inPkts[0]))
-				decerr = e != nil
-			}()
-		}
-		hadEnc := fx.sf.rtpEncoder != nil
-		u := &unit.Unit{PTS: in.pts, Payload: in.payload, RTPPackets: inPkts}
-		sentPkts := make([]*rtp.Packet, len(inPkts))
-		for i, p := range inPkts {
-			sentPkts[i] = vC23ClonePkt(p)
-		}
-		werr, pan := fx.write(u)
-		ds := map[string]any{"pts": in.pts, "class": in.class}
 		if len(sentPkts) != 0 {
 			ds["in"] = vC23PktDesc(sentPkts)
 		}
@@ -478,36 +601,104 @@ func vC23Run(g *vC23Gen, sc vC23Scenario) (coq string, desc map[string]any, clas
 		if dl != nil {
 			ds["tsDeltas"] = dl
 		}
-		steps = append(steps, cqApp("Step", cqZ(in.pts), cqListOf(sentPkts, cqC23Pkt), cqBool(decerr), delivCoq,
+		steps = append(steps, cqApp("Step", cqZ(ipts), cqZ(u.PTS), cqListOf(sentPkts, cqC23Pkt), cqBool(decerr), delivCoq,
 			cqListOf(dl, func(v int64) string { return cqZ(v) }), res))
 		dsteps = append(dsteps, ds)
-		if merged {
-			// the steps before the defective one are judged on their own (prefix case); the scenario ends here
-			if len(steps) > 1 {
-				vC23Prefix = &vC23Case{
-					coq:   vC23Scen(sc.f, sc.max, avail, initCoq, steps[:len(steps)-1]),
-					desc:  map[string]any{"format": sc.f.name, "max": sc.max, "rtpPublisher": sc.rtp, "prefixOfKnownDefectCase": true, "steps": dsteps[:len(dsteps)-1]},
-					class: sc.f.name + "/prefix-of-known-defect-case", nt: true,
-				}
+		if !merged {
+			classes[uclass] = true
+			if res == "SPanic" || res == "SErr" {
+				classes["error"] = true
 			}
-			break
 		}
-		classes[in.class] = true
-		if res == "SPanic" || res == "SErr" {
-			classes["error"] = true
+	}
+
+segments:
+	for si, seg := range segs {
+		useRTP := seg.rtp
+		if si > 0 {
+			forma = inFormat(false)
+			if e := vC23NewSub(fx, forma, useRTP); e != nil {
+				subStep(useRTP, vC23DecOK(forma), firstTime, "NErr", "error: "+e.Error(), fx)
+				classes["error"] = true
+				break
+			}
+		}
+		// SubStream.Initialize: initialize2 of every format, under the stream's lock
+		var own []*unit.Unit
+		hadEnc := fx.sf.rtpEncoder != nil
+		firstArg := firstTime
+		if aa {
+			own = vC23Tap(fx, func() { fx.ssf.initialize2(firstTime, lastPTS, lastSys) })
+		} else {
+			fx.ssf.initialize2(firstTime, lastPTS, lastSys)
+		}
+		// the state is read after initialize2; the units initialize2 wrote itself come after the NewSub step, so the
+		// sequence number is the one before them
+		stCoq, stDesc := vC23StateCoq(fx.sf)
+		if len(own) != 0 {
+			n := 0
+			for _, u := range own {
+				n += len(u.RTPPackets)
+			}
+			if has, ssrc, seq, off := vC23EncCur(fx.sf); has {
+				seq -= uint16(n)
+				stCoq = "(Some (" + cqZ(int64(ssrc)) + ", " + cqZ(int64(seq)) + ", " + cqZ(int64(off)) + "))"
+				stDesc = fmt.Sprintf("ssrc=%d seq=%d off=%d", ssrc, seq, off)
+			}
+		}
+		subStep(useRTP, !useRTP || vC23DecOK(forma), firstArg, "(NOk "+stCoq+")", stDesc, fx)
+		for _, u := range own {
+			record(int64(uint64(u.PTS)-uint64(fx.sf.ptsOffset)), "parameter-sets", nil, false, hadEnc, u, nil, "")
+			if merged {
+				break segments
+			}
+		}
+		shadow, _ := newRTPDecoder(forma) // the same decoder ssf.initialize created, fed the same packets
+		for _, in := range genIns(seg, len(segs) == 1, si == len(segs)-1) {
+			var inPkts []*rtp.Packet
+			for _, p := range in.pkts {
+				inPkts = append(inPkts, vC23ClonePkt(p))
+			}
+			decerr := false
+			if len(inPkts) != 0 && shadow != nil {
+				func() {
+					defer func() {
+						if r := recover(); r != nil {
+							decerr = true
+						}
+					}()
+					_, e := shadow.decode(vC23ClonePkt(inPkts[0]))
+					decerr = e != nil
+				}()
+			}
+			hadEnc = fx.sf.rtpEncoder != nil
+			u := &unit.Unit{PTS: in.pts, Payload: in.payload, RTPPackets: inPkts}
+			sentPkts := make([]*rtp.Packet, len(inPkts))
+			for i, p := range inPkts {
+				sentPkts[i] = vC23ClonePkt(p)
+			}
+			werr, pan := fx.write(u)
+			record(in.pts, in.class, sentPkts, decerr, hadEnc, u, werr, pan)
+			if merged {
+				// the steps before the defective one are judged on their own (prefix case); the scenario ends here
+				if len(steps) > 2 {
+					vC23Prefix = &vC23Case{
+						coq:   mkCase(steps[:len(steps)-1]),
+						desc:  map[string]any{"format": sc.f.name, "max": sc.max, "rtpPublisher": sc.rtp, "prefixOfKnownDefectCase": true, "steps": dsteps[:len(dsteps)-1]},
+						class: sc.f.name + "/prefix-of-known-defect-case", nt: true,
+					}
+				}
+				break segments
+			}
 		}
 	}
 	desc["steps"] = dsteps
-	coq = vC23Scen(sc.f, sc.max, avail, initCoq, steps)
+	coq = mkCase(steps)
 	if merged {
 		return coq, desc, knownClass, true
 	}
-	mode := "payload"
-	if sc.rtp {
-		mode = "rtp-passthrough"
-		if trig {
-			mode = "rtp-oversize-trigger"
-		}
+	if sc.mode == 0 && sc.rtp && trig {
+		mode = "rtp-oversize-trigger"
 	}
 	// the class names the most specific kind of unit in the scenario
 	cl := "plain"
@@ -577,20 +768,45 @@ func TestVerifC23(t *testing.T) {
 		}
 		vC23Big = i%400 == 10 || i%400 == 113 // a 64 KiB payload as last unit, with a realistic maximum (H.264, then another format)
 		sc := vC23Scenario{f: f, max: g.max(), nUnits: 1 + g.r.Intn(4)}
+		// 25% always-available streams going through 2-4 sub streams, 5% forced remux (H.264 packetization-mode 0)
+		if i%4 == 1 && vC23ClockOK(f) {
+			sc.mode = 1
+		} else if i%20 == 6 {
+			sc.mode = 2
+			sc.f = vC23H264Mode0()
+			f = sc.f
+		}
 		if sc.max < f.minMax {
 			sc.max += f.minMax
 		}
-		if f.bits != 0 && !vC23Avail(f, sc.max) {
+		if sc.mode != 1 && f.bits != 0 && !vC23Avail(f, sc.max) {
 			sc.rtp = true // newRTPEncoder refuses the format (a sample does not fit): only an RTP publisher can exist
 		}
 		if sc.max > 300 {
 			sc.nUnits = 1 + g.r.Intn(2) // keeps the cases files small
 		}
-		if vC23Big {
+		if vC23Big && sc.mode == 0 {
 			sc.max = vPick(g.r, []int{1460, 1450, 1200})
 			sc.nUnits = 1
+		} else {
+			vC23Big = false
 		}
-		if f.id == 17 || sc.rtp || (!vC23Big && g.r.Chance(2, 5)) {
+		if sc.mode == 1 {
+			// the offline sub stream first (never an RTP publisher), then publishers replacing each other / the offline
+			// sub stream coming back
+			sc.segs = []vC23Seg{{rtp: false, nUnits: 1 + g.r.Intn(2)}}
+			nsub := 1 + g.r.Intn(3)
+			if sc.max > 300 {
+				nsub = 1
+			}
+			for k := 0; k < nsub; k++ {
+				sc.segs = append(sc.segs, vC23Seg{rtp: f.id == 17 || g.r.Chance(1, 2), nUnits: 1 + g.r.Intn(2)})
+			}
+			sc.srcMax = vPick(g.r, []int{sc.max, sc.max + 1, 2 * sc.max, 1460, sc.max + 1 + g.r.Intn(64)})
+			if sc.srcMax < sc.max {
+				sc.srcMax = sc.max
+			}
+		} else if f.id == 17 || sc.rtp || (!vC23Big && g.r.Chance(2, 5)) {
 			sc.rtp = true
 			sc.nUnits = 2 + g.r.Intn(3)
 			if sc.max > 300 {
@@ -611,6 +827,27 @@ func TestVerifC23(t *testing.T) {
 }
 
 var vC23Other int
+
+// an always-available stream needs the clock rate of the format (MPEG-4 Audio gets a configuration in vC23Run)
+func vC23ClockOK(f *vC23Fmt) (ok bool) {
+	defer func() {
+		if r := recover(); r != nil {
+			ok = false
+		}
+	}()
+	forma := f.mk()
+	if _, isM4A := forma.(*format.MPEG4Audio); isM4A {
+		return true
+	}
+	return forma.ClockRate() > 0
+}
+
+// H.264 announced with packetization-mode 0: streamFormat.initialize switches the output to mode 1 and forces the remux
+func vC23H264Mode0() *vC23Fmt {
+	return &vC23Fmt{id: 0, name: "h264-mode0", avail: true,
+		mk:  func() format.Format { return &format.H264{PayloadTyp: 96, PacketizationMode: 0} },
+		gen: vC23GenH264}
+}
 
 type vC23Case struct {
 	coq   string
